@@ -1143,9 +1143,20 @@ func (a *An) analyze(fn *ssa.Function) *fnInfo {
 }
 
 // ---------------------------------------------------------------- classes
+// singletonTypes: module struct types of which a package-level variable holds an instance (directly, by pointer,
+// or inside a slice / array / map / module interface).  Objects of such a type are not one-per-fan / one-per-sensor:
+// a constructor may hand the same package-level object to several owners (e.g. `return sharedLoop`), so every
+// cell of the type is shared by all goroutines, whatever package the type lives in.
+var singletonTypes = map[string]string{}
+
 func classOf(cell string) string {
 	if strings.HasPrefix(cell, "?") {
 		return "OOther"
+	}
+	for t := range singletonTypes {
+		if strings.HasPrefix(cell, t+".") {
+			return "OGlobal"
+		}
 	}
 	head := cell
 	if i := strings.IndexAny(cell, ".:"); i >= 0 {
@@ -1280,6 +1291,59 @@ func main() {
 		byName[fn.String()] = fn
 	}
 	a.indexInterfaces()
+	// package-level instances of module struct types (see singletonTypes)
+	for _, sp := range spkgs {
+		for name, m := range sp.Members {
+			g, ok := m.(*ssa.Global)
+			if !ok || !inModulePath(sp.Pkg.Path()) {
+				continue
+			}
+			seenT := map[string]bool{}
+			var walk func(t types.Type, depth int)
+			walk = func(t types.Type, depth int) {
+				if depth > 6 || seenT[t.String()] {
+					return
+				}
+				seenT[t.String()] = true
+				if isModuleStruct(t) {
+					if _, named := t.(*types.Named); named {
+						if _, dup := singletonTypes[typeName(t)]; !dup {
+							singletonTypes[typeName(t)] = shortPkg(sp.Pkg) + ":" + name
+						}
+					}
+					st := t.Underlying().(*types.Struct)
+					for i := 0; i < st.NumFields(); i++ {
+						if isModuleStruct(st.Field(i).Type()) { // value-nested structs are part of the same object
+							walk(st.Field(i).Type(), depth+1)
+						}
+					}
+					return
+				}
+				switch u := t.Underlying().(type) {
+				case *types.Pointer:
+					walk(u.Elem(), depth+1)
+				case *types.Slice:
+					walk(u.Elem(), depth+1)
+				case *types.Array:
+					walk(u.Elem(), depth+1)
+				case *types.Map:
+					walk(u.Elem(), depth+1)
+				case *types.Interface:
+					if n, ok := t.(*types.Named); ok && n.Obj().Pkg() != nil && inModulePath(n.Obj().Pkg().Path()) {
+						for _, mt := range a.modTypes {
+							if !types.IsInterface(mt) && types.Implements(mt, u) {
+								walk(mt, depth+1)
+							}
+						}
+					}
+				}
+			}
+			walk(deref(g.Type()), 0)
+		}
+	}
+	for t, g := range singletonTypes {
+		a.note("type " + t + " has a package-level instance (" + g + "): its cells are shared by all goroutines")
+	}
 	// call-site and closure indices (for parameter / free-variable tracing)
 	for _, fn := range a.allFuncs {
 		for _, b := range fn.Blocks {
